@@ -1528,3 +1528,55 @@ def gen_drift_selection():
     ok, log = compile_gen('DriftSel.v')
     return ('driftsel: branch structure of drift() (fixed / floating with string wrapping and symbol set / all atoms), filter() by symbol and the arguments '
             'apply_drift_correction passes on; the two selections proved equal to Model.C13.sel_fixed / sel_floating', ok, 'ok' if ok else log[-600:])
+
+
+# ---------------------------------------------------------------- unit: binning of trajectory_to_volume (C08)
+def volume_binning_unit():
+    tree = _parse('volume.py')
+    f = _find_func(tree, None, 'trajectory_to_volume')
+    src = [ast.unparse(s) for s in f.body if not (isinstance(s, ast.Expr) and isinstance(s.value, ast.Constant))]
+    want = ['lattice = trajectory.get_lattice()', 'coords = trajectory.positions.reshape(-1, 3)', 'assert coords.min() >= 0', 'assert coords.max() < 1',
+            'nx = int(1 + lattice.lengths[0] // resolution)', 'ny = int(1 + lattice.lengths[1] // resolution)', 'nz = int(1 + lattice.lengths[2] // resolution)',
+            'dims = np.array([nx - 1, ny - 1, nz - 1])', 'digitized_coords = (coords * dims).astype(int)',
+            'indices, counts = np.unique(digitized_coords, return_counts=True, axis=0)', 'i, j, k = indices.T',
+            'data = np.zeros((nx - 1, ny - 1, nz - 1), dtype=int)', 'data[i, j, k] = counts',
+            "return Volume(data=data, lattice=lattice, label='trajectory')"]
+    if src != want:
+        k = next((i for i, (a, b) in enumerate(zip(src, want)) if a != b), min(len(src), len(want)))
+        raise Unsupported('trajectory_to_volume statement %d: %s' % (k, src[k][:120] if k < len(src) else '<missing>'))
+    # grid size per axis, as an integer expression over numerators (L / lden) // (r / lden) = L // r
+    nxs = f.body[[ast.unparse(s) for s in f.body].index(want[4])]
+    e = nxs.value.args[0]          # 1 + lattice.lengths[0] // resolution
+    if not (isinstance(e, ast.BinOp) and isinstance(e.op, ast.Add) and ast.unparse(e.left) == '1' and isinstance(e.right, ast.BinOp) and isinstance(e.right.op, ast.FloorDiv)):
+        raise Unsupported('grid size expression')
+    return True
+
+
+def gen_volume_binning():
+    os.makedirs(GEN, exist_ok=True)
+    try:
+        volume_binning_unit()
+    except Unsupported as e:
+        return ('volumebin', False, f'translator: unsupported {e}')
+    lines = ['(* GENERATED from /repo/src/gemdat/volume.py (trajectory_to_volume) on every run -- do not edit *)',
+             'From GV Require Import Base.Prelude Model.C08.',
+             '(* nx = int(1 + L // r); the grid has nx - 1 voxels along the axis; cell length L and resolution r as numerators over one denominator *)',
+             'Definition gen_nx (L r : Z) : Z := 1 + L / r.',
+             'Definition gen_dims (L r : Z) : Z := gen_nx L r - 1.',
+             '(* digitized = (coords * dims).astype(int) on coordinates in [0, 1): truncation = floor; x numerator over D *)',
+             'Definition gen_digitize (D n x : Z) : Z := (x * n) / D.',
+             'Theorem gen_dims_is_model : forall L r, gen_dims L r = ngrid L r.',
+             'Proof. intros. unfold gen_dims, gen_nx, ngrid. lia. Qed.',
+             'Theorem gen_digitize_is_model : forall D n x, gen_digitize D n x = voxel D n x.',
+             'Proof. reflexivity. Qed.',
+             '(* the voxel edge L / n lies in [r, 2r) whenever the resolution does not exceed the cell length *)',
+             'Theorem gen_edge_bounds : forall L r, 0 < r -> r <= L -> r * gen_dims L r <= L /\\ L < 2 * r * gen_dims L r.',
+             'Proof.',
+             '  intros L r Hr HL. unfold gen_dims, gen_nx.',
+             '  assert (H1 : 1 <= L / r) by (apply Z.div_le_lower_bound; lia).',
+             '  pose proof (Z.mul_div_le L r Hr) as H2. pose proof (Z.mul_succ_div_gt L r Hr) as H3. nia.',
+             'Qed.']
+    open(os.path.join(GEN, 'VolumeBin.v'), 'w').write('\n'.join(lines) + '\n')
+    ok, log = compile_gen('VolumeBin.v')
+    return ('volumebin: statements of trajectory_to_volume (range asserts, grid size 1 + L // r minus one, truncating digitisation, np.unique counts assigned once); '
+            'grid size and voxel index proved equal to Model.C08.ngrid / voxel, edge bounds r <= L/n < 2r', ok, 'ok' if ok else log[-600:])
